@@ -2,6 +2,7 @@ package rules
 
 import (
 	"go/constant"
+	"go/token"
 	"go/types"
 	"sort"
 	"strings"
@@ -543,7 +544,7 @@ func c01Identity(c *eng.Ctx, d *dbInfo) {
 					okk, how = true, "closure parameter filled by serveJSON"
 				}
 				// (ii) result 0 of s.getIdentity(r)
-				if call, idx := eng.TupleCall(o); call != nil && idx == 0 && eng.Callee(&call.Call) == getIdentity {
+				if _, isID := identitySource(getIdentity, o, 0); isID {
 					okk, how = true, "result of getIdentity"
 				}
 				c.Check(okk, "R-C01-6", f, in.Pos(), eng.InstrStr(in), "Caller passed to db."+m.Name+" is the identity obtained from getIdentity, unchanged", "Caller argument is "+eng.ValStr(arg)+" "+how)
@@ -570,7 +571,7 @@ func c01Identity(c *eng.Ctx, d *dbInfo) {
 			}
 			okk := false
 			if len(call.Call.Args) == 2 {
-				if gc, idx := eng.TupleCall(call.Call.Args[1]); gc != nil && idx == 0 && eng.Callee(&gc.Call) == getIdentity && len(gc.Call.Args) == 2 && eng.Origin(gc.Call.Args[1]) == f.Params[2] {
+				if rq, isID := identitySource(getIdentity, call.Call.Args[1], 0); isID && eng.Origin(rq) == ssa.Value(f.Params[2]) {
 					okk = true
 				}
 			}
@@ -622,8 +623,22 @@ func c01Identity(c *eng.Ctx, d *dbInfo) {
 				cal := eng.Callee(&call.Call)
 				if cal != nil && cal.Origin() != nil && eng.FuncIs(cal.Origin(), "tailscale.com/tailcfg", "UnmarshalCapJSON") && len(call.Call.Args) == 2 {
 					capName, isC := eng.ConstString(call.Call.Args[1])
+					isCap := func(s string) bool {
+						return s == "tailscale.com/cap/secrets" || s == "https://tailscale.com/cap/secrets"
+					}
+					if !isC {
+						// an element of a read-only table of names
+						if elems, _, isT := eng.GlobalElems(p, call.Call.Args[1]); isT {
+							isC, capName = true, "tailscale.com/cap/secrets"
+							for _, e := range elems {
+								if s, isS := eng.ConstString(e); !isS || !isCap(s) {
+									isC, capName = isS, s
+								}
+							}
+						}
+					}
 					fr2, _, isF := eng.LoadedField(call.Call.Args[0])
-					if isC && (capName == "tailscale.com/cap/secrets" || capName == "https://tailscale.com/cap/secrets") && isF && fr2.Name == "CapMap" {
+					if isC && isCap(capName) && isF && fr2.Name == "CapMap" {
 						one = true
 					} else {
 						detail = "capability " + capName + " from " + eng.ValStr(call.Call.Args[0])
@@ -666,11 +681,96 @@ func passedToServeJSON(f *ssa.Function) bool {
 			if mc, ok := eng.Origin(a).(*ssa.MakeClosure); ok && mc.Fn == f {
 				found = true
 			}
+			// ... or wrapped by an adapter that only forwards (req, id) to it
+			if ac, _ := eng.TupleCall(a); ac != nil && ac.Parent() == par {
+				if idx, isAd := forwardingAdapter(par, eng.Callee(&ac.Call)); isAd && idx < len(ac.Call.Args) {
+					if mc, ok := eng.Origin(ac.Call.Args[idx]).(*ssa.MakeClosure); ok && mc.Fn == f {
+						found = true
+					}
+				}
+			}
 		}
 	})
 	return found
 }
 
+// forwardingAdapter: h (a helper of caller's package) does nothing but return
+// a function literal that calls h's function-typed parameter #idx with the
+// literal's own parameters, in order and unchanged, exactly once, and calls
+// nothing else: what the wrapped function receives is what the literal was
+// given.
+func forwardingAdapter(caller, h *ssa.Function) (idx int, ok bool) {
+	if h == nil || !eng.IsHelper(caller, h) || len(h.Blocks) != 1 || len(h.AnonFuncs) != 1 {
+		return 0, false
+	}
+	lit := h.AnonFuncs[0]
+	var mc *ssa.MakeClosure
+	bad := false
+	eng.Instrs(h, func(in ssa.Instruction) {
+		switch x := in.(type) {
+		case *ssa.MakeClosure:
+			if x.Fn == lit {
+				mc = x
+			}
+		case *ssa.Return:
+			if len(x.Results) != 1 || mc == nil || eng.Origin(x.Results[0]) != ssa.Value(mc) {
+				bad = true
+			}
+		case *ssa.DebugRef, *ssa.Alloc:
+		case *ssa.Store:
+			// the captured parameter's cell
+			if _, isAl := x.Addr.(*ssa.Alloc); !isAl {
+				bad = true
+			} else if _, isP := x.Val.(*ssa.Parameter); !isP {
+				bad = true
+			}
+		default:
+			bad = true
+		}
+	})
+	if bad || mc == nil || len(mc.Bindings) != 1 {
+		return 0, false
+	}
+	bound := mc.Bindings[0]
+	if al, isAl := bound.(*ssa.Alloc); isAl {
+		if sts := eng.CellStores(al); len(sts) == 1 {
+			bound = sts[0].Val
+		}
+	}
+	idx = -1
+	for i, q := range h.Params {
+		if ssa.Value(q) == bound {
+			idx = i
+		}
+	}
+	if idx < 0 || len(lit.FreeVars) != 1 {
+		return 0, false
+	}
+	calls := 0
+	eng.Instrs(lit, func(in ssa.Instruction) {
+		switch x := in.(type) {
+		case ssa.CallInstruction:
+			cc := x.Common()
+			calls++
+			fv := cc.Value
+			if u, isU := fv.(*ssa.UnOp); isU && u.Op == token.MUL {
+				fv = u.X // the captured variable is read through its cell
+			}
+			if fv != ssa.Value(lit.FreeVars[0]) || len(cc.Args) != len(lit.Params) {
+				bad = true
+				return
+			}
+			for i, a := range cc.Args {
+				if a != ssa.Value(lit.Params[i]) {
+					bad = true
+				}
+			}
+		case *ssa.Store, *ssa.MapUpdate, *ssa.Send, *ssa.Go, *ssa.Defer:
+			bad = true
+		}
+	})
+	return idx, !bad && calls == 1
+}
 
 // methodHandedToServeJSON: f is a declared method whose only use in the
 // module is as a method value handed to serveJSON as the handler function
@@ -726,4 +826,53 @@ func handlerParams(f *ssa.Function) (req, id *ssa.Parameter) {
 		return nil, nil
 	}
 	return ps[0], ps[1]
+}
+
+// identitySource: v is the db.Caller produced by getIdentity -- result 0 of
+// s.getIdentity(rq) itself, or of a helper that hands that result on
+// unchanged (its other returns yield the zero Caller, which grants nothing).
+// rq is the request the identity was taken from, in v's frame.
+func identitySource(getIdentity *ssa.Function, v ssa.Value, depth int) (rq ssa.Value, ok bool) {
+	call, idx := eng.TupleCall(v)
+	if call == nil || idx != 0 || depth > 3 {
+		return nil, false
+	}
+	cal := eng.Callee(&call.Call)
+	if cal == getIdentity {
+		if len(call.Call.Args) != 2 {
+			return nil, false
+		}
+		return call.Call.Args[1], true
+	}
+	if !eng.IsHelper(call.Parent(), cal) || call.Call.IsInvoke() || len(call.Call.Args) != len(cal.Params) {
+		return nil, false
+	}
+	n := 0
+	for _, r := range eng.Returns(cal) {
+		rv := eng.RetVals(r)
+		if len(rv) == 0 {
+			return nil, false
+		}
+		if k, isK := eng.Origin(rv[0]).(*ssa.Const); isK && k.Value == nil {
+			continue // the zero Caller
+		}
+		inner, isID := identitySource(getIdentity, rv[0], depth+1)
+		if !isID {
+			return nil, false
+		}
+		prm, isP := eng.Origin(inner).(*ssa.Parameter)
+		if !isP || prm.Parent() != cal {
+			return nil, false
+		}
+		for i, q := range cal.Params {
+			if q == prm {
+				if n > 0 && rq != call.Call.Args[i] {
+					return nil, false
+				}
+				rq = call.Call.Args[i]
+				n++
+			}
+		}
+	}
+	return rq, n > 0
 }
